@@ -5,6 +5,10 @@ HERE = os.path.dirname(os.path.dirname(os.path.abspath(__file__)))
 PY = '/venv/bin/python'
 
 CHECKS = {
+ 'C19': dict(sec='2/C19', cat='exploration',
+   text='airtovac/vactoair, sdssflux2ab and filter_thru are executed on generated inputs of every flavour the property names (float, numpy scalar, 0-d/1-d/2-d arrays in several layouts, scalar and array Quantity in A/nm/um/m; 5-band arrays incl. negative fluxes; flux images over in-band, out-of-band and noisy wavelength solutions given as image and as trace set, masks hiding NaN/inf) and every return value is checked against the property\'s relations (round trip <= 1e-6 A, unchanged below 2000 A, unit/shape/flavour agreement, unmodified arguments, one AB offset per band in all three forms, linearity, constant -> constant, bounds, exact mask independence, wset == waveimg) plus an independent weighted-mean model. Held on the executions observed.',
+   note='Trusts numpy/long-double arithmetic and the check\'s own parser of the filter tables of the tree under test; wavelengths within 1e-9 of 2000 A are undecided for unit-converted input; fully masked traces and the value for a band without overlap are outside the asserted domain.',
+   tech='runtime monitoring: boundary recorder + metamorphic/round-trip relations and reference-model oracle over generated inputs'),
  'C15': dict(sec='2/C15', cat='exploration',
    text='icontract contracts installed on the real HMF.astep/gstep/astepnn/gstepnn/normbase observe every factor update the real solve() performs (normal-equation residual per object/pixel, objective non-increase, unit rms, non-negativity, bitwise seed reproducibility, caller arrays untouched); computechi2 attributes are compared with a long-double QR reference, pcomp with an explicitly summed correlation/covariance matrix, pca_solve coefficients through a relative normal-equation residual on the returned eigenspectra. Contract evaluation counters are required > 0. A statement about the executions observed (rank-K+noise data, K <= 5, sizes <= 60x200, cond <= 1e6).',
    note='Trusts numpy long double, numpy.linalg.eigvalsh/svd used by the oracle, icontract 2.7.3 evaluating every installed condition, and the two monotonicity arguments stated in the evidence assumptions.',
